@@ -1,5 +1,401 @@
-//! stream `alg2` (stub; replaced by its builder)
-pub fn generate(_seed: u64, _cases: usize, _out: &mut Vec<String>) {}
-pub fn run(_toks: &[&str]) -> String {
-    "bad-op".to_string()
+//! Stream `alg2` — the graph algorithms of `grafeo_adapters::plugins::algorithms` (C19), compared
+//! with executable Lean models of the algorithms' own loops (`Model/Algo2.lean`).
+//!
+//! Stateless lines that carry the whole graph:
+//!
+//!   alg2 <op> <n> <edges> [<source>]     edges = `u>v:w,…` or `-`; nodes are 0..n-1
+//!   alg2 uf <n> <script>                 script = `u.x.y,f.x,c.x.y,…` on a fresh UnionFind::new(n)
+//!
+//! Outputs are the real results; only what depends on hash-map iteration is canonicalised:
+//!
+//!   bfs            discovery order `0,2,1` (`-` when empty)
+//!   bfs.layers     layers in discovery order `0|2,1|3`
+//!   dfs            finish (post-) order
+//!   wcc            component id of node 0,1,…  (ids are handed out in node order)
+//!   scc            the partition `0,1|2|3,4` (classes sorted, ordered by least element)
+//!   topo           `none`, or `valid` / `invalid` after checking the returned order here
+//!                  (the initial queue is a hash-map iteration)
+//!   kruskal        chosen edges in order `u>v:w,…/total`
+//!   dijkstra, bellman_ford   distance map `v=d,…` sorted by node, `negcycle`
+//!   uf             results of the script: union → t/f, find → root, connected → t/f
+use crate::util::*;
+use grafeo_adapters::plugins::algorithms::{
+    UnionFind, bellman_ford, bfs, bfs_layers, connected_components, dfs, dijkstra, kruskal,
+    strongly_connected_components, topological_sort,
+};
+use grafeo_common::types::{NodeId, Value};
+use grafeo_core::graph::lpg::LpgStore;
+use std::collections::BTreeMap;
+
+type E = (u64, u64, i64);
+
+fn show_edges(es: &[E]) -> String {
+    if es.is_empty() {
+        return "-".into();
+    }
+    es.iter().map(|(u, v, w)| format!("{}>{}:{}", u, v, w)).collect::<Vec<_>>().join(",")
+}
+
+fn parse_edges(s: &str) -> Option<Vec<E>> {
+    if s == "-" || s.is_empty() {
+        return Some(vec![]);
+    }
+    s.split(',')
+        .map(|t| {
+            let (u, rest) = t.split_once('>')?;
+            let (v, w) = rest.split_once(':')?;
+            Some((u.parse().ok()?, v.parse().ok()?, w.parse().ok()?))
+        })
+        .collect()
+}
+
+// ------------------------------------------------------------------------------------ generator
+
+fn stat(stats: &mut BTreeMap<&'static str, usize>, k: &'static str) {
+    *stats.entry(k).or_default() += 1;
+}
+
+fn emit_graph(out: &mut Vec<String>, r: &mut Rng, n: u64, es: &[E], stats: &mut BTreeMap<&'static str, usize>) {
+    let g = show_edges(es);
+    for op in ["wcc", "topo", "kruskal"] {
+        out.push(format!("alg2 {} {} {}", op, n, g));
+    }
+    let mut sources: Vec<u64> = if n == 0 { vec![0] } else if n <= 4 { (0..n).collect() } else { vec![0, r.below(n), n - 1] };
+    if r.chance(1, 8) {
+        sources.push(n + r.below(3)); // not a node
+        stat(stats, "source-not-a-node");
+    }
+    sources.dedup();
+    for &s in &sources {
+        for op in ["bfs", "bfs.layers", "dfs", "dijkstra", "bellman_ford"] {
+            if op == "dijkstra" && es.iter().any(|e| e.2 < 0) {
+                continue; // outside dijkstra's domain (the real loop need not end)
+            }
+            out.push(format!("alg2 {} {} {} {}", op, n, g, s));
+        }
+    }
+    if es.iter().any(|e| e.0 == e.1) {
+        stat(stats, "self-loop");
+    }
+    if es.iter().enumerate().any(|(i, a)| es[..i].iter().any(|b| (a.0, a.1) == (b.0, b.1) || (a.0, a.1) == (b.1, b.0))) {
+        stat(stats, "parallel");
+    }
+    if es.is_empty() {
+        stat(stats, "no-edges");
+    }
+}
+
+fn perm(r: &mut Rng, n: u64) -> Vec<u64> {
+    let mut p: Vec<u64> = (0..n).collect();
+    for i in (1..p.len()).rev() {
+        let j = r.below(i as u64 + 1) as usize;
+        p.swap(i, j);
+    }
+    p
+}
+
+pub fn generate(seed: u64, cases: usize, out: &mut Vec<String>) {
+    let mut r = Rng::new(seed ^ 0x616c6732);
+    let mut stats: BTreeMap<&'static str, usize> = BTreeMap::new();
+    let fixed: Vec<(u64, Vec<E>)> = vec![
+        (0, vec![]),
+        (1, vec![]),
+        (1, vec![(0, 0, 3)]),
+        (2, vec![(0, 1, 5), (0, 1, 1)]),
+        (2, vec![(0, 1, 1), (0, 1, 5)]),
+        (2, vec![(0, 1, 5), (1, 0, 1)]),
+        (2, vec![]),
+        (2, vec![(1, 0, 2)]),
+        (4, vec![(0, 1, 1), (2, 3, 1)]),
+        (3, vec![(0, 1, 0), (1, 2, 0), (2, 0, 0)]),
+        (4, vec![(0, 1, 2), (0, 2, 2), (1, 3, 2), (2, 3, 2), (0, 3, 4)]),
+        (3, vec![(0, 1, 4), (1, 2, 4), (0, 2, 1), (2, 1, 1)]),
+        (4, vec![(0, 1, 3), (1, 2, 3), (0, 2, 3), (0, 2, 1), (3, 3, 0)]),
+        (5, vec![(0, 2, 1), (0, 1, 1), (2, 3, 1), (1, 3, 1), (3, 4, 1), (4, 0, 1)]),
+        (6, vec![(5, 4, 2), (4, 3, 2), (3, 2, 2), (2, 1, 2), (1, 0, 2)]), // long chain: deep find
+        (3, vec![(0, 1, -1), (1, 2, -1), (2, 0, -1)]),                    // negative cycle
+        (3, vec![(0, 1, 5), (0, 2, 2), (2, 1, -4)]),
+    ];
+    for (i, (n, es)) in fixed.iter().enumerate() {
+        out.push(format!("# case fixed{} seed {}", i, seed));
+        emit_graph(out, &mut r, *n, es, &mut stats);
+    }
+    out.push(format!("# case fixeduf seed {}", seed));
+    for l in [
+        "alg2 uf 0 -",
+        "alg2 uf 1 f.0,u.0.0,c.0.0",
+        "alg2 uf 4 u.0.1,u.2.3,u.1.3,f.3,f.2,f.1,f.0,c.0.3",
+        "alg2 uf 4 u.0.1,u.2.3,u.3.1,f.0,f.1,f.2,f.3",
+        "alg2 uf 6 u.0.1,u.2.3,u.0.2,u.4.5,u.4.0,f.5,f.3,f.1,c.5.3,u.5.3",
+        "alg2 uf 3 f.3",
+        "alg2 uf 3 u.0.7",
+    ] {
+        out.push(l.to_string());
+    }
+    // union-find scripts
+    for c in 0..(cases / 2 + 4) {
+        out.push(format!("# case uf{} seed {}", c, seed));
+        let n = r.range(1, 10);
+        let len = r.range(1, 24);
+        let mut ops: Vec<String> = vec![];
+        for _ in 0..len {
+            let x = r.below(n);
+            let y = r.below(n);
+            match r.below(10) {
+                0..=5 => ops.push(format!("u.{}.{}", x, y)),
+                6..=7 => ops.push(format!("f.{}", x)),
+                _ => ops.push(format!("c.{}.{}", x, y)),
+            }
+        }
+        // read every root at the end (shows the whole forest up to compression)
+        for x in 0..n {
+            ops.push(format!("f.{}", x));
+        }
+        if r.chance(1, 25) {
+            ops.push(format!("f.{}", n + r.below(2)));
+            stat(&mut stats, "uf-out-of-range");
+        }
+        stat(&mut stats, "uf-script");
+        out.push(format!("alg2 uf {} {}", n, ops.join(",")));
+    }
+    // structured graphs: cactus shapes, DAGs, random
+    for c in 0..cases {
+        out.push(format!("# case {} seed {}", c, seed));
+        let kind = r.below(6);
+        let (n, es): (u64, Vec<E>) = match kind {
+            0 => {
+                stat(&mut stats, "cactus");
+                let mut edges: Vec<(u64, u64)> = vec![];
+                let mut n: u64 = 1;
+                for _ in 0..r.range(1, 3) {
+                    let attach = r.below(n);
+                    let len = r.range(3, 5);
+                    let first = n;
+                    n += len - 1;
+                    edges.push((attach, first));
+                    for v in first..n - 1 {
+                        edges.push((v, v + 1));
+                    }
+                    edges.push((n - 1, attach));
+                }
+                for _ in 0..r.below(3) {
+                    edges.push((r.below(n), n));
+                    n += 1;
+                }
+                let p = perm(&mut r, n);
+                let mut es: Vec<E> = edges
+                    .iter()
+                    .map(|&(a, b)| {
+                        let w = if r.chance(1, 3) { 3 } else { r.below(6) as i64 };
+                        if r.chance(2, 3) { (p[a as usize], p[b as usize], w) } else { (p[b as usize], p[a as usize], w) }
+                    })
+                    .collect();
+                for i in (1..es.len()).rev() {
+                    let j = r.below(i as u64 + 1) as usize;
+                    es.swap(i, j);
+                }
+                (n, es)
+            }
+            _ => {
+                let n = match r.below(8) {
+                    0 => r.below(3),
+                    1 => r.range(10, 16),
+                    _ => r.range(2, 9),
+                };
+                let m = if n == 0 {
+                    0
+                } else {
+                    match r.below(4) {
+                        0 => r.below(n + 1),
+                        1 => r.range(n, 2 * n),
+                        _ => r.below(25),
+                    }
+                };
+                let mut es: Vec<E> = Vec::new();
+                for _ in 0..m {
+                    let (u, v) = match r.below(10) {
+                        0 => {
+                            let u = r.below(n);
+                            (u, u)
+                        }
+                        1 | 2 if !es.is_empty() => {
+                            let (a, b, _) = *r.pick(&es);
+                            if r.chance(1, 2) { (a, b) } else { (b, a) }
+                        }
+                        _ => (r.below(n), r.below(n)),
+                    };
+                    let w = match r.below(5) {
+                        0 => 0,
+                        1 => 3,
+                        _ => r.below(7) as i64,
+                    };
+                    es.push((u, v, w));
+                }
+                if kind == 1 {
+                    // acyclic: orient along a random ranking, drop self-loops
+                    stat(&mut stats, "dag");
+                    let rank = perm(&mut r, n);
+                    es = es
+                        .iter()
+                        .filter(|(u, v, _)| u != v)
+                        .map(|&(u, v, w)| if rank[u as usize] < rank[v as usize] { (u, v, w) } else { (v, u, w) })
+                        .collect();
+                } else {
+                    stat(&mut stats, "random");
+                }
+                (n, es)
+            }
+        };
+        emit_graph(out, &mut r, n, &es, &mut stats);
+        if r.chance(1, 4) && n > 0 {
+            // negative weights for bellman_ford only (often a negative cycle)
+            stat(&mut stats, "negative-weights");
+            let neg: Vec<E> = es.iter().map(|&(u, v, w)| (u, v, if r.chance(1, 4) { -(r.below(4) as i64) } else { w })).collect();
+            for s in [0, n - 1] {
+                out.push(format!("alg2 bellman_ford {} {} {}", n, show_edges(&neg), s));
+            }
+        }
+    }
+    if std::env::var("VH_STATS").is_ok() {
+        for (k, v) in &stats {
+            eprintln!("alg2 stats {:>20} {}", k, v);
+        }
+        let mut ops: BTreeMap<String, usize> = BTreeMap::new();
+        for l in out.iter().filter(|l| l.starts_with("alg2 ")) {
+            *ops.entry(l.split(' ').nth(1).unwrap_or("").to_string()).or_default() += 1;
+        }
+        for (k, v) in &ops {
+            eprintln!("alg2 ops   {:>20} {}", k, v);
+        }
+    }
+}
+
+// ------------------------------------------------------------------------------------ runner
+
+fn build(n: u64, es: &[E]) -> LpgStore {
+    let store = LpgStore::new();
+    for i in 0..n {
+        let id = store.create_node(&["N"]);
+        assert_eq!(id.0, i, "node ids are expected to be 0..n-1 in creation order");
+    }
+    for &(u, v, w) in es {
+        let e = store.create_edge(NodeId::new(u), NodeId::new(v), "E");
+        store.set_edge_property(e, "weight", Value::Float64(w as f64));
+    }
+    store
+}
+
+fn num(f: f64) -> String {
+    if f.fract() == 0.0 && f.abs() < 9.0e15 { format!("{}", f as i64) } else { format!("f{:016x}", f.to_bits()) }
+}
+
+fn show_dist<'a>(it: impl Iterator<Item = (&'a NodeId, &'a f64)>) -> String {
+    let m: BTreeMap<u64, f64> = it.map(|(k, v)| (k.0, *v)).collect();
+    if m.is_empty() {
+        return "-".into();
+    }
+    m.iter().map(|(k, v)| format!("{}={}", k, num(*v))).collect::<Vec<_>>().join(",")
+}
+
+fn show_list(v: &[NodeId]) -> String {
+    let ids: Vec<u64> = v.iter().map(|x| x.0).collect();
+    list_arg(&ids)
+}
+
+fn show_partition<'a>(it: impl Iterator<Item = (&'a NodeId, &'a u64)>) -> String {
+    let mut classes: BTreeMap<u64, Vec<u64>> = BTreeMap::new();
+    for (node, comp) in it {
+        classes.entry(*comp).or_default().push(node.0);
+    }
+    let mut cs: Vec<Vec<u64>> = classes.into_values().collect();
+    for c in cs.iter_mut() {
+        c.sort_unstable();
+    }
+    cs.sort();
+    if cs.is_empty() {
+        return "-".into();
+    }
+    cs.iter().map(|c| join(c)).collect::<Vec<_>>().join("|")
+}
+
+fn run_uf(n: usize, script: &str) -> String {
+    let mut uf = UnionFind::new(n);
+    let mut res: Vec<String> = vec![];
+    if script != "-" {
+        for op in script.split(',') {
+            let parts: Vec<&str> = op.split('.').collect();
+            let arg = |i: usize| parts.get(i).and_then(|s| s.parse::<usize>().ok());
+            match (parts[0], arg(1), arg(2), parts.len()) {
+                ("u", Some(x), Some(y), 3) => res.push(if uf.union(x, y) { "t".into() } else { "f".into() }),
+                ("c", Some(x), Some(y), 3) => res.push(if uf.connected(x, y) { "t".into() } else { "f".into() }),
+                ("f", Some(x), None, 2) => res.push(format!("{}", uf.find(x))),
+                _ => return "bad-op".into(),
+            }
+        }
+    }
+    if res.is_empty() { "-".into() } else { res.join(",") }
+}
+
+pub fn run(args: &[&str]) -> String {
+    let a = args.to_vec();
+    guarded(move || {
+        if a.len() < 3 {
+            return "bad-op".into();
+        }
+        let op = a[0];
+        let Some(n) = a[1].parse::<u64>().ok() else { return "bad-op".into() };
+        if op == "uf" {
+            if a.len() != 3 {
+                return "bad-op".into();
+            }
+            return run_uf(n as usize, a[2]);
+        }
+        let Some(es) = parse_edges(a[2]) else { return "bad-op".into() };
+        if es.iter().any(|&(u, v, _)| u >= n || v >= n) {
+            return "bad-op".into();
+        }
+        let src = a.get(3).and_then(|s| s.parse::<u64>().ok());
+        let w = Some("weight");
+        match (op, src) {
+            // dijkstra's domain is non-negative weights (with a negative cycle the real loop never ends)
+            ("dijkstra", Some(_)) if es.iter().any(|e| e.2 < 0) => "bad-op".into(),
+            ("dijkstra", Some(s)) => show_dist(dijkstra(&build(n, &es), NodeId::new(s), w).distances.iter()),
+            ("bellman_ford", Some(s)) => {
+                let r = bellman_ford(&build(n, &es), NodeId::new(s), w);
+                if r.has_negative_cycle { "negcycle".into() } else { show_dist(r.distances.iter()) }
+            }
+            ("bfs", Some(s)) => show_list(&bfs(&build(n, &es), NodeId::new(s))),
+            ("dfs", Some(s)) => show_list(&dfs(&build(n, &es), NodeId::new(s))),
+            ("bfs.layers", Some(s)) => {
+                let ls = bfs_layers(&build(n, &es), NodeId::new(s));
+                if ls.is_empty() { "-".into() } else { ls.iter().map(|l| show_list(l)).collect::<Vec<_>>().join("|") }
+            }
+            ("wcc", None) => {
+                let m: BTreeMap<u64, u64> = connected_components(&build(n, &es)).iter().map(|(k, v)| (k.0, *v)).collect();
+                if m.len() as u64 != n || m.keys().any(|&k| k >= n) {
+                    return "bad-keys".into();
+                }
+                let ids: Vec<u64> = m.values().copied().collect();
+                list_arg(&ids)
+            }
+            ("scc", None) => show_partition(strongly_connected_components(&build(n, &es)).iter()),
+            ("topo", None) => match topological_sort(&build(n, &es)) {
+                None => "none".into(),
+                Some(order) => {
+                    let mut pos: BTreeMap<u64, usize> = BTreeMap::new();
+                    for (i, v) in order.iter().enumerate() {
+                        pos.insert(v.0, i);
+                    }
+                    let perm = order.len() as u64 == n && pos.len() as u64 == n && pos.keys().all(|&k| k < n);
+                    if perm && es.iter().all(|(u, v, _)| pos[u] < pos[v]) { "valid".into() } else { "invalid".into() }
+                }
+            },
+            ("kruskal", None) => {
+                let r = kruskal(&build(n, &es), w);
+                let t: Vec<String> = r.edges.iter().map(|e| format!("{}>{}:{}", e.0.0, e.1.0, num(e.3))).collect();
+                format!("{}/{}", if t.is_empty() { "-".to_string() } else { t.join(",") }, num(r.total_weight))
+            }
+            _ => "bad-op".into(),
+        }
+    })
 }
